@@ -892,7 +892,19 @@ pub fn check_counts(sim: &Sim, during: Option<Id>) {
             // a missing unregister leaves the fd in the poller and the source half-released
             // an unrequested extra (un/re)registration silences or disturbs a source that did
             // not ask for it
-            let extra: &[&str] = if i == 2 && seen[i] < s.exp[i] { &["C16", "C06", "C15", "C01"] } else if seen[i] > s.exp[i] { &["C07"] } else { &[] };
+            // (a self-removal from the source's own callback that is not carried out as it would
+            // be outside a dispatch is also C08's business)
+            let extra: &[&str] = if i == 2 && seen[i] < s.exp[i] {
+                if s.removed_in_own_cb {
+                    &["C16", "C06", "C15", "C01", "C08"]
+                } else {
+                    &["C16", "C06", "C15", "C01"]
+                }
+            } else if seen[i] > s.exp[i] {
+                &["C07"]
+            } else {
+                &[]
+            };
             drop(st);
             sim.violate_props(if other { "postaction.wrong_target" } else { "postaction.count" }, extra, flags, msg);
             return;
